@@ -3,6 +3,9 @@ coq/Model/C05Populate.v) evaluated with C02's own oracle (coq/Model/StorePopulat
 from props import c05 as P
 
 ID = "C02"
+# the model numbers fiber identities and rank lists in construction (DFS) order: no post-construction
+# re-assignment of sub-trees in the shared builder (the histories themselves contain such assignments)
+REASSIGN_MODE = False
 MODNAME = "c02_pop"
 THEOREMS = []
 COQ_IMPORTS = P.COQ_IMPORTS + "\nFrom FT Require Import Model.StorePopulateCheck."
